@@ -127,6 +127,15 @@ PLAN = {
              "configure_fmmus loops (inputs before outputs, PdiTooLong), into_pre_op's group offsets and the PDI guards - the claim is narrowed to the "
              "leaf that programs the FMMU; ESC hardware semantics assumed",
     ),
+    "C09": dict(
+        verus=["init_addr"], kani=[], level="proof",
+        claim="the two per-position loops of MainDevice::init, verbatim fragments (Verus, any n): Ok => the device at EVERY ring position i < n was sent "
+              "APWR(auto-increment address 0-i, register 0x0010) <- 0x1000+i, the addresses are pairwise distinct; then exactly n SubDevice::new(i, 0x1000+i) "
+              "in ring order are stored; n > MAX_SUBDEVICES is Err(Capacity) - never a panic or a silent truncation; Command::apwr negates the position",
+        note="PARTIAL claim. NOT decided: count_subdevices / reset_subdevices, what SubDevice::new reads (identity, name, alias, ports, DC) and from whom, "
+             "the group filter / FnvIndexMap part ('every device in exactly one group'; closures and dyn), PRE-OP arrival (device behaviour), the n == 0 early "
+             "return (outside the fragments). A device model would be a different technique family.",
+    ),
     "C10": dict(
         verus=["group_cycle", "wrapped"], kani=[], level="proof",
         claim="SubDeviceGroup::is_state, verbatim (Verus, any group size, any frame size >= one state check): Ok(true) only if EVERY SubDevice of the group "
